@@ -1,7 +1,7 @@
 (* C18 - Qubit remapping and count un-mapping are mutually inverse. *)
 From Coq Require Import ZArith NArith List Bool.
 From QP Require Import Cx Asum Apply.
-From QPM Require Import Remap.
+From QPM Require Import Remap RemapExec.
 Import ListNotations.
 
 (* translating the backend's outcome back yields the original outcome bit for bit, for every
@@ -34,6 +34,40 @@ Theorem remapped_circuit_acts_as_original :
   = csem gs psi (fun n => b' (pi n)).
 Proof. exact remap_circuit_sem. Qed.
 Print Assumptions remapped_circuit_acts_as_original.
+
+(* the executable model of QubitRemappingTranspiler (constructor check, dictionary lookups with the
+   KeyError -> ValueError path, register size) - run against the real class by corr_C18.py *)
+
+(* the constructor accepts exactly the non-empty mappings with pairwise distinct targets *)
+Theorem constructor_accepts_exactly_the_injective_mappings :
+  forall m : qmap, ctor_ok m = true <-> NoDup (mvals m) /\ m <> [].
+Proof. exact ctor_ok_spec. Qed.
+Print Assumptions constructor_accepts_exactly_the_injective_mappings.
+
+(* __call__ raises (None) exactly when some gate of the circuit uses a qubit that has no entry in the
+   mapping - wherever that index lies relative to the keys, as control or as target *)
+Theorem remapping_rejects_exactly_the_circuits_with_an_unmapped_qubit :
+  forall (A : Type) (m : qmap) (gs : list (A * list nat)),
+  remap_circuit m gs = None <-> exists q, uses gs q /\ ~ In q (mkeys m).
+Proof. intros A. exact remap_circuit_none. Qed.
+Print Assumptions remapping_rejects_exactly_the_circuits_with_an_unmapped_qubit.
+
+(* otherwise it returns the same gates (payload - name, parameters, Pauli ids, matrix - untouched) with every
+   index sent through the dictionary, all inside the register of max(target) + 1 qubits *)
+Theorem returned_circuit_is_the_relabelled_circuit :
+  forall (A : Type) (m : qmap) (gs gs' : list (A * list nat)),
+  remap_circuit m gs = Some gs' ->
+  gs' = map (fun g => (fst g, map (pi_of m) (snd g))) gs /\ (forall q, uses gs' q -> q < out_qubit_count m).
+Proof. intros A m gs gs' H. split; [exact (remap_circuit_some m gs gs' H)|exact (remap_circuit_in_register m gs gs' H)]. Qed.
+Print Assumptions returned_circuit_is_the_relabelled_circuit.
+
+(* and that circuit acts on the relabelled register as the original acts on the original one *)
+Theorem executable_remapping_acts_as_original :
+  forall (m : qmap) (gs gs' : list lgate),
+  ctor_ok m = true -> remap_circuit m gs = Some gs' ->
+  forall psi b', csem gs' (fun c' => psi (fun n => c' (pi_of m n))) b' = csem gs psi (fun n => b' (pi_of m n)).
+Proof. exact remap_exec_sem. Qed.
+Print Assumptions executable_remapping_acts_as_original.
 
 Example c18_example :
   let m := [(0, 4); (1, 2); (2, 5); (3, 0)]%nat in
